@@ -57,7 +57,7 @@ func (fv *FuncVC) globalAddr(g *ssa.Global) Term {
 	name := "adr.g." + mangle(fv.W.pkgShort(g.Pkg.Pkg)) + "." + mangle(g.Name())
 	if !fv.declared[name] {
 		t := fv.declare(name, SInt)
-		fv.assume(lt(intLit(0), t))
+		fv.assumeGlobal(lt(intLit(0), t))
 		fv.globalFacts(g, t)
 	}
 	return Term{S: name, Sort: SInt, T: g.Type()}
@@ -67,11 +67,11 @@ func (fv *FuncVC) funcConst(f *ssa.Function) Term {
 	name := "fnc." + mangle(fv.W.FuncKey(f))
 	if !fv.declared[name] {
 		t := fv.declare(name, SInt)
-		fv.assume(lt(intLit(0), t))
+		fv.assumeGlobal(lt(intLit(0), t))
 		// distinct from other function constants
 		for d := range fv.declared {
 			if strings.HasPrefix(d, "fnc.") && d != name {
-				fv.assume(not(eq(t, Term{S: d, Sort: SInt})))
+				fv.assumeGlobal(not(eq(t, Term{S: d, Sort: SInt})))
 			}
 		}
 	}
@@ -122,10 +122,10 @@ func (fv *FuncVC) stringLit(s string) Term {
 		return t
 	}
 	p := fv.freshConst("adr.strlit", SInt)
-	fv.assume(lt(intLit(0), p))
+	fv.assumeGlobal(lt(intLit(0), p))
 	m := fv.heap(fv.entry, "M", SInt)
 	for i := 0; i < len(s) && i < 64; i++ {
-		fv.assume(eq(sel(m, add(p, intLit(int64(i)))), intLit(int64(s[i]))))
+		fv.assumeGlobal(eq(sel(m, add(p, intLit(int64(i)))), intLit(int64(s[i]))))
 	}
 	t := mkStr(p, intLit(int64(len(s))))
 	fv.stringLits[s] = t
@@ -325,7 +325,7 @@ func (fv *FuncVC) ghostEntry(name string) Term {
 	t := fv.declare("g."+mangle(name)+"@0", sortS)
 	if name == "$brk" && !fv.declared["brkfact"] {
 		fv.declared["brkfact"] = true
-		fv.assume(lt(intLit(0), t))
+		fv.assumeGlobal(lt(intLit(0), t))
 	}
 	return t
 }
@@ -945,7 +945,7 @@ func (fv *FuncVC) ifaceFuns(t types.Type) (box, unbox, is string, sortS string) 
 		fv.declareFun(box, []string{sortS}, SInt)
 		fv.declareFun(unbox, []string{SInt}, sortS)
 		fv.declareFun(is, []string{SInt}, SBool)
-		q := func(s string) { fv.assume(Term{S: s, Sort: SBool}) }
+		q := func(s string) { fv.assumeGlobal(Term{S: s, Sort: SBool}) }
 		q(fmt.Sprintf("(forall ((v!x %s)) (! (and (= (%s (%s v!x)) v!x) (%s (%s v!x)) (> (%s v!x) 0)) :pattern ((%s v!x))))", sortS, unbox, box, is, box, box, box))
 		q(fmt.Sprintf("(forall ((i!x Int)) (! (=> (%s i!x) (= (%s (%s i!x)) i!x)) :pattern ((%s i!x))))", is, box, unbox, unbox))
 		q(fmt.Sprintf("(not (%s 0))", is))
